@@ -22,7 +22,7 @@ THEOREMS = ['Fsic.C07.' + n for n in [
     'error_codes_consistent']]
 RULE = ('programs from an own grammar (1-6 equations, shared variables, parameters {a}, errors <e>, lags/leads up to 3, '
         'left-hand sides that carry a lag/lead of their own (H[1] = ..., R[-1] = ...), '
-        'integer and decimal literals, + - * / ** unary minus parentheses exp log max min abs, long sums over dozens of '
+        'integer and decimal literals, + - * / ** unary minus parentheses exp log abs, max and min with two to four arguments, long sums over dozens of '
         'variables that need continuation lines) plus a fixed list of designed programs (convergence exactly at tol, '
         'offset copies, each known defect); per program random finite data and a sample of the call lattice: '
         '_evaluate(t), solve_t(t, min_iter, max_iter, tol, offset, failures, errors), solve_period(label, ...), '
@@ -588,12 +588,16 @@ def model_payload(prog, symbols, n, data, call, check, record=None):
             walk(e[3])
         elif e[0] == 'fn1':
             walk(e[2])
+        elif e[0] == 'fnv':
+            for a in e[2]:
+                walk(a)
     for eq in prog['eqs']:
         walk(eq['rhs'])
     names = endo + exo + par + err
     return {'endo': endo, 'exo': exo, 'par': par, 'err': err, 'check': check,
             # evaluation order = order of the endogenous *symbols* (first appearance in the script), as in both back-ends
-            'eqs': [{'lhs': eq['lhs'], 'off': eq.get('off', 0), 'rhs': eq['rhs']}
+            # n-ary max/min cross to the model as nested binary calls (fortran_gen.fold)
+            'eqs': [{'lhs': eq['lhs'], 'off': eq.get('off', 0), 'rhs': fg.fold(eq['rhs'])}
                     for eq in sorted(prog['eqs'], key=lambda q: endo.index(q['lhs']))],
             'lits': [{'text': k, 'r4': v[0], 'r8': v[1], 'm': v[2], 'e': v[3]} for k, v in sorted(lits.items())],
             'symlags': [int(s.lags) for s in sym], 'symleads': [int(s.leads) for s in sym],
@@ -703,6 +707,8 @@ def to_gs(e, env):
         return gs.Bin(fg.OPS[e[1]][0], to_gs(e[2], env), to_gs(e[3], env))
     if k == 'fn1':
         return gs.Call(e[1], (to_gs(e[2], env),))
+    if k == 'fnv':
+        return gs.Call(e[1], tuple(to_gs(a, env) for a in e[2]))
     return gs.Call(e[1], (to_gs(e[2], env), to_gs(e[3], env)))
 
 
@@ -862,6 +868,12 @@ def designed_programs():
                         {'lhs': 'Z', 'rhs': B('sub', B('mul', X, ['neg', V('W', -1)]), B('pow', ['neg', X], ['int', 2]))},
                         {'lhs': 'U', 'rhs': B('div', ['neg', B('pow', V('W'), ['int', 2])], D('1.5'))}],
         loose=True, data='uniform')
+    # function arity: max / min with three and four arguments (any number >= 2 in Python and in Fortran)
+    add('variadic-minmax', [{'lhs': 'Wv', 'rhs': ['fnv', 'max', [V('W'), B('mul', V('Wv', -1), D('0.5')), B('mul', V('X'), V('a'))]]},
+                            {'lhs': 'Rv', 'rhs': ['fnv', 'min', [V('X'), V('W'), B('add', V('Rv', -1), D('0.25')), D('8.0')]]},
+                            {'lhs': 'Q', 'rhs': B('add', ['fnv', 'min', [V('Wv'), ['fn2', 'max', V('Rv'), V('X', -1)], D('1.5')]],
+                                                   B('mul', D('0.25'), V('Q')))}],
+        par=('a',), data='uniform', n=7)
     # operator precedence and associativity of ** and unary minus
     add('power-assoc', [{'lhs': 'Y', 'rhs': B('pow', B('add', ['fn1', 'abs', X], D('1.5')), B('pow', D('0.5'), ['int', 2]))},
                         {'lhs': 'Z', 'rhs': ['neg', B('pow', B('add', ['fn1', 'abs', X], D('0.5')), D('1.5'))]},
@@ -934,6 +946,8 @@ def process_program(job):
         count('continuation-lines' if '&\n' in text[text.index('solved_values = initial_values'):text.index('end subroutine evaluate')] else 'single-line-equations')
         for k in prog['unsafe']:
             count('feature:' + k)
+        if '"fnv"' in json.dumps(prog['eqs']):
+            count('feature:max-min-with-3+-arguments')
         count('class:libm' if prog['libm'] else 'class:arithmetic-only')
         base_case = {'script': prog['script'], 'tag': prog.get('tag', 'random')}
         # names must be numbered as the Python class orders them
